@@ -82,7 +82,7 @@ def generator_fn(g):
     return {"nontrivial": True, "sample": {"recorded_max": str(m), "clock": [str(t1), str(t2)], "ids": [str(a), str(b)]}}
 
 
-OPS = ("run-ok", "run-fail", "gc")
+OPS = ("run-ok", "run-fail", "gc", "restore-old", "restore-future")
 
 
 def make_history(nops, ops=OPS, window=3):
@@ -120,7 +120,21 @@ def make_history(nops, ops=OPS, window=3):
                     def status_for(self, kernel, proc):
                         return fakeos.StatusExited(3 if (op == "run-fail" and proc.name == "e") else 0)
                 kern = fakeos.Kernel(S(), clock=lambda: Reading(sec_c))
-                if op == "gc":
+                if op.startswith("restore"):
+                    # an archive made elsewhere whose version is older / ahead of this machine's clock
+                    ts = (40 + i) if op == "restore-old" else (400 + i)
+                    src = hrun.Project()
+                    try:
+                        src.write_tasks([TaskSpec("e", "run_experiment", [], run="./exp.sh")])
+                        src.add_version("//:e", ts)
+                        arch = os.path.join(hrun.SCRATCH_BASE, "c08-%s.tar.gz" % os.path.basename(str(src.root)))
+                        ra = hrun.invoke_argv(["archive", "-o", arch], str(src.root), fakeos.Kernel(fakeos.Sched()))
+                        assert ra.status == 0, (ra.status, ra.err)
+                    finally:
+                        src.cleanup()
+                    res = hrun.invoke_argv(["restore", arch], str(proj.root), kern)
+                    os.unlink(arch)
+                elif op == "gc":
                     res = hrun.invoke(cli_gc.main, argparse.Namespace(dry_run=False, verbose=False, debug=False), str(proj.root), kern)
                 else:
                     res = hrun.invoke(cli_run.main, hrun.run_ns(task_identifier="//:d", again=True), str(proj.root), kern)
@@ -170,10 +184,10 @@ def spaces(tier):
                 "generate_new_output_version called twice; recorded maximum >= 0 and both clock readings are unbounded "
                 "integers, no monotonicity", depth=3, goals=["two readings within one second", "clock steps back"]),
           Space("history-3", make_history(3),
-                "<=3 invocations from {successful run, failing run, gc}; each invocation's clock second symbolic in a 3 s "
+                "<=3 invocations from {successful run, failing run, gc, restore of an archive with an older / a future version}; each invocation's clock second symbolic in a 3 s "
                 "window (may repeat or step back)", depth=5,
                 goals=["two invocations within one clock second", "clock steps back between invocations", "run after a failed run"],
-                outside=["concurrent invocations", "restores (C11/C12)", "more than 3 invocations"])]
+                outside=["concurrent invocations", "more than 3 invocations"])]
     if tier == "thorough":
         sp.append(Space("history-4", make_history(4, window=4), "<=4 invocations, 4 s window", depth=6, tiers=("thorough",)))
     return sp
